@@ -20,3 +20,18 @@ def body_deductive(rep):
     rep.trusted += [A['SOLVERS'], 'Lean 4.33 kernel', 'spec/control.smt2: source semantics semb (from the property statements), target '
                     'semantics semc of YPCode trees, and the hand transcription of the Lean lemma statements into SMT-LIB '
                     '(side by side in lean/THEOREMS.md)']
+
+
+CLAUSE_TARGETS = ['yp_generator.YPPrologCompiler.' + f for f in (
+    'find_clause_head_variable_arguments', 'compile_clause_head_variable_arguments', 'compile_arg_list_unification',
+    'compile_unification', 'compile_expression', 'compile_list', 'compile_variable_declaration', 'get_argument_variable')]
+
+
+def clause_deductive(rep, targets=None, literal_lemma=True):
+    """clause heads and term expressions (C01, C16): structural contracts against aliases / wrap / cexpr"""
+    from ..pyvc.theory_clause import ClauseTheory
+    fw.deductive(rep, targets or CLAUSE_TARGETS, ['generator_clause'], ['control.smt2'], theory=ClauseTheory)
+    res = lemmas.prove_clause_lemmas()
+    fw.add_smt(rep, [r for r in res if literal_lemma or 'LITERAL' not in r['name']], 'spec.clause-lemmas')
+    rep.lemmas.append('L-CNT (occurrence counts), L-LITERAL (denote(cexpr(t)) = tsem(t): the constructor calls emitted for a source term build '
+                      'the term the literal denotes): proved by induction over the spec definitions (SMT)')
